@@ -42,6 +42,10 @@ def gen_desc(verif_seed: int, i: int, tier: str = "quick") -> dict:
             if not cands:
                 continue
             trig = {"always": True} if rng.random() < 0.5 else {"mod": 2, "rem": rng.randrange(2)}
+            if kind in ("delete_keeps", "stale_read") and (rs >> 9) % 3 == 0:
+                # hash-derived (no extra draw): the defect shows only after a DELETE of another resource succeeded
+                # since this one was created, so the first finding of the operation sits in a two-DELETE tree
+                trig = {"after_other_delete": True}
             behaviour.append({"op": rng.choice(cands), "trigger": trig, "deviation": kind})
     # universes with a link to an *extended* identifier ("r1" -> "r1s"): make that other resource answer (stale read),
     # so that identity confusion between r1 and r1s becomes observable right after a delete of r1
@@ -98,13 +102,13 @@ ASSUMPTIONS = [
     "resource identity = equal concrete path segments (collection name and identifier value)",
     "completeness is asserted for the first case of a run on which a predicate holds (later equal failures may be de-duplicated)",
 ]
-EXPECTED_PROBES = ["delete_keeps", "delete_denied", "create_not_stored", "stale_read", "uaf_true", "era_true", "transitions", "shim_off_runs"]
+EXPECTED_PROBES = ["delete_keeps", "delete_denied", "create_not_stored", "stale_read", "after_other_delete", "uaf_two_deletes", "uaf_true", "era_true", "transitions", "shim_off_runs"]
 
 
 def fired_faults(desc: dict, res: dict) -> dict:
     st = res.get("stats") or {}
     out = dict(st.get("peer_fired") or {})
-    for k in ("uaf_true", "era_true", "uaf_recorded", "era_recorded", "transitions", "deletes_ok", "deletes_failed"):
+    for k in ("uaf_two_deletes", "uaf_true", "era_true", "uaf_recorded", "era_recorded", "transitions", "deletes_ok", "deletes_failed"):
         if st.get(k):
             out[k] = st[k]
     if not desc["config"].get("shim"):
